@@ -522,7 +522,109 @@ func (ts *TermStore) Or(a, b *Term) *Term {
 	if a == b {
 		return a
 	}
+	if a.w <= 512 {
+		if r := ts.orSegments(a, b); r != nil {
+			return r
+		}
+	}
 	return ts.bin(OpOr, a, b)
+}
+
+type seg struct {
+	w int
+	t *Term // nil = zeros
+}
+
+// segsOf decomposes byte-assembly style terms (const zero, zext, concat) into segments, high to low.
+func (ts *TermStore) segsOf(t *Term, out []seg, depth int) []seg {
+	switch {
+	case t.op == OpConst && ts.isZero(t):
+		return append(out, seg{t.w, nil})
+	case t.op == OpZExt && depth > 0:
+		out = append(out, seg{t.w - t.args[0].w, nil})
+		return ts.segsOf(t.args[0], out, depth-1)
+	case t.op == OpConcat && depth > 0:
+		out = ts.segsOf(t.args[0], out, depth-1)
+		return ts.segsOf(t.args[1], out, depth-1)
+	}
+	return append(out, seg{t.w, t})
+}
+
+// orSegments rewrites a|b into a concatenation when the two operands occupy
+// disjoint bit ranges (constants may be split at any position).
+func (ts *TermStore) orSegments(a, b *Term) *Term { return ts.disjointSegments(OpOr, a, b) }
+
+func (ts *TermStore) disjointSegments(op Op, a, b *Term) *Term {
+	okShape := func(t *Term) bool { return t.op == OpZExt || t.op == OpConcat }
+	if !(okShape(a) && (okShape(b) || b.op == OpConst)) && !(okShape(b) && a.op == OpConst) {
+		return nil
+	}
+	sa := ts.segsOf(a, nil, 8)
+	sb := ts.segsOf(b, nil, 8)
+	split := func(s seg, w int) (seg, seg, bool) {
+		// split off the high w bits
+		if s.t == nil {
+			return seg{w, nil}, seg{s.w - w, nil}, true
+		}
+		if s.t.op == OpConst {
+			hi := ts.Extract(s.t, s.w-1, s.w-w)
+			lo := ts.Extract(s.t, s.w-w-1, 0)
+			return seg{w, hi}, seg{s.w - w, lo}, true
+		}
+		return s, s, false
+	}
+	isZ := func(s seg) bool { return s.t == nil || (s.t.op == OpConst && ts.isZero(s.t)) }
+	var out []seg
+	i, j := 0, 0
+	for i < len(sa) && j < len(sb) {
+		x, y := sa[i], sb[j]
+		if x.w < y.w {
+			h, rest, ok := split(y, x.w)
+			if !ok {
+				return nil
+			}
+			y = h
+			sb[j] = rest
+			i++
+		} else if y.w < x.w {
+			h, rest, ok := split(x, y.w)
+			if !ok {
+				return nil
+			}
+			x = h
+			sa[i] = rest
+			j++
+		} else {
+			i++
+			j++
+		}
+		switch {
+		case isZ(x):
+			out = append(out, y)
+		case isZ(y):
+			out = append(out, x)
+		case x.t.op == OpConst && y.t.op == OpConst && op != OpAdd:
+			out = append(out, seg{x.w, ts.binConst(op, x.t, y.t)})
+		default:
+			return nil
+		}
+	}
+	if i != len(sa) || j != len(sb) {
+		return nil
+	}
+	var r *Term
+	for _, s := range out {
+		p := s.t
+		if p == nil {
+			p = ts.Const(s.w, 0)
+		}
+		if r == nil {
+			r = p
+		} else {
+			r = ts.Concat(r, p)
+		}
+	}
+	return r
 }
 
 func (ts *TermStore) Xor(a, b *Term) *Term {
@@ -550,6 +652,28 @@ func (ts *TermStore) Xor(a, b *Term) *Term {
 	if ts.isZero(b) {
 		return a
 	}
+	// (x ^ y) ^ y = x
+	if a.op == OpXor {
+		if a.args[0] == b {
+			return a.args[1]
+		}
+		if a.args[1] == b {
+			return a.args[0]
+		}
+	}
+	if b.op == OpXor {
+		if b.args[0] == a {
+			return b.args[1]
+		}
+		if b.args[1] == a {
+			return b.args[0]
+		}
+	}
+	if a.w <= 512 {
+		if r := ts.disjointSegments(OpXor, a, b); r != nil {
+			return r
+		}
+	}
 	return ts.bin(OpXor, a, b)
 }
 
@@ -559,6 +683,11 @@ func (ts *TermStore) Add(a, b *Term) *Term {
 	}
 	if ts.isZero(b) {
 		return a
+	}
+	if a.w <= 512 {
+		if r := ts.disjointSegments(OpAdd, a, b); r != nil {
+			return r
+		}
 	}
 	// (x + c1) + c2
 	if b.op == OpConst && a.op == OpAdd && a.args[1].op == OpConst {
@@ -650,7 +779,7 @@ func (ts *TermStore) Shl(a, b *Term) *Term {
 		if b.ConstU() >= uint64(a.w) {
 			return ts.Const(a.w, 0)
 		}
-		if a.op != OpConst {
+		if a.op == OpZExt || a.op == OpConcat {
 			c := int(b.ConstU())
 			return ts.Concat(ts.Extract(a, a.w-1-c, 0), ts.Const(c, 0))
 		}
@@ -666,7 +795,7 @@ func (ts *TermStore) LShr(a, b *Term) *Term {
 		if b.ConstU() >= uint64(a.w) {
 			return ts.Const(a.w, 0)
 		}
-		if a.op != OpConst {
+		if a.op == OpZExt || a.op == OpConcat || a.op == OpExtract {
 			c := int(b.ConstU())
 			return ts.ZExt(ts.Extract(a, a.w-1, c), a.w)
 		}
@@ -678,7 +807,7 @@ func (ts *TermStore) AShr(a, b *Term) *Term {
 	if ts.isZero(b) {
 		return a
 	}
-	if b.op == OpConst && a.op != OpConst && a.w <= 64 {
+	if b.op == OpConst && (a.op == OpZExt || a.op == OpConcat || a.op == OpSExt) && a.w <= 64 {
 		c := b.ConstU()
 		if c >= uint64(a.w) {
 			c = uint64(a.w) - 1
@@ -702,6 +831,18 @@ func (ts *TermStore) Concat(hi, lo *Term) *Term {
 	if ts.isZero(hi) {
 		return ts.ZExt(lo, w)
 	}
+	// canonical left-nested form: concat(a, concat(b, c)) = concat(concat(a, b), c)
+	if lo.op == OpConcat {
+		return ts.Concat(ts.Concat(hi, lo.args[0]), lo.args[1])
+	}
+	// concat(a, zext(x)) = concat(concat(a, 0), x)
+	if lo.op == OpZExt {
+		return ts.Concat(ts.Concat(hi, ts.Const(lo.w-lo.args[0].w, 0)), lo.args[0])
+	}
+	// merge adjacent constants: concat(concat(a, c1), c2)
+	if lo.op == OpConst && hi.op == OpConcat && hi.args[1].op == OpConst {
+		return ts.Concat(hi.args[0], ts.Concat(hi.args[1], lo))
+	}
 	// concat(extract(x,h,m+1), extract(x,m,l)) = extract(x,h,l)
 	if hi.op == OpExtract && lo.op == OpExtract && hi.args[0] == lo.args[0] {
 		hh, hl := int(hi.k>>16), int(hi.k&0xffff)
@@ -714,6 +855,19 @@ func (ts *TermStore) Concat(hi, lo *Term) *Term {
 }
 
 func (ts *TermStore) Extract(a *Term, hi, lo int) *Term {
+	return ts.extractD(a, hi, lo, 3)
+}
+
+// shallow terms are those an extract can be pushed into without slicing a deep tree.
+func shallow(t *Term) bool {
+	switch t.op {
+	case OpConst, OpVar, OpConcat, OpZExt, OpExtract:
+		return true
+	}
+	return false
+}
+
+func (ts *TermStore) extractD(a *Term, hi, lo int, depth int) *Term {
 	if hi < lo || hi >= a.w || lo < 0 {
 		panic(fmt.Sprintf("bad extract %d %d of width %d", hi, lo, a.w))
 	}
@@ -751,9 +905,32 @@ func (ts *TermStore) Extract(a *Term, hi, lo int) *Term {
 		if hi < in.w {
 			return ts.Extract(in, hi, lo)
 		}
+	case OpShl:
+		if a.args[1].op == OpConst {
+			c := int(a.args[1].ConstU())
+			if lo >= c {
+				return ts.extractD(a.args[0], hi-c, lo-c, depth)
+			}
+			if hi < c {
+				return ts.Const(w, 0)
+			}
+		}
+	case OpLShr:
+		if a.args[1].op == OpConst {
+			c := int(a.args[1].ConstU())
+			if hi+c < a.w {
+				return ts.extractD(a.args[0], hi+c, lo+c, depth)
+			}
+			if lo+c >= a.w {
+				return ts.Const(w, 0)
+			}
+		}
 	case OpAnd, OpOr, OpXor:
-		x := ts.Extract(a.args[0], hi, lo)
-		y := ts.Extract(a.args[1], hi, lo)
+		if depth <= 0 || !shallow(a.args[0]) || !shallow(a.args[1]) {
+			break
+		}
+		x := ts.extractD(a.args[0], hi, lo, depth-1)
+		y := ts.extractD(a.args[1], hi, lo, depth-1)
 		switch a.op {
 		case OpAnd:
 			return ts.And(x, y)
@@ -763,14 +940,16 @@ func (ts *TermStore) Extract(a *Term, hi, lo int) *Term {
 			return ts.Xor(x, y)
 		}
 	case OpNot:
-		return ts.Not(ts.Extract(a.args[0], hi, lo))
+		if depth > 0 {
+			return ts.Not(ts.extractD(a.args[0], hi, lo, depth-1))
+		}
 	case OpIte:
-		if a.args[1].op == OpConst || a.args[2].op == OpConst {
+		if depth > 0 && (a.args[1].op == OpConst || a.args[2].op == OpConst) {
 			return ts.Ite(a.args[0], ts.Extract(a.args[1], hi, lo), ts.Extract(a.args[2], hi, lo))
 		}
 	case OpAdd, OpSub, OpMul:
 		// low bits only depend on low bits
-		if lo == 0 {
+		if lo == 0 && depth > 0 {
 			x := ts.Extract(a.args[0], hi, 0)
 			y := ts.Extract(a.args[1], hi, 0)
 			switch a.op {
@@ -1141,6 +1320,13 @@ func (ts *TermStore) umax(t *Term) uint64 {
 			return t.args[1].k - 1
 		}
 	case OpLShr:
+		if t.args[1].op == OpConst {
+			c := t.args[1].ConstU()
+			if c >= 64 {
+				return 0
+			}
+			return ts.UMax(t.args[0]) >> c
+		}
 		return ts.UMax(t.args[0])
 	case OpIte:
 		a, b := ts.UMax(t.args[1]), ts.UMax(t.args[2])
@@ -1449,7 +1635,22 @@ func (ts *TermStore) Vars(roots ...*Term) []*Term {
 }
 
 // Cone returns all nodes reachable from roots in topological (children first) order.
-func (ts *TermStore) Cone(roots ...*Term) []*Term {
+func (ts *TermStore) Cone(roots ...*Term) []*Term { return ts.ConeCut(nil, roots...) }
+
+// VarsCut returns the variables reachable without descending below cut nodes.
+func (ts *TermStore) VarsCut(cut map[int]bool, roots ...*Term) []*Term {
+	var out []*Term
+	for _, t := range ts.ConeCut(cut, roots...) {
+		if t.op == OpVar {
+			out = append(out, t)
+		}
+	}
+	sort.Slice(out, func(i, j int) bool { return out[i].name < out[j].name })
+	return out
+}
+
+// ConeCut is Cone that does not descend below nodes in cut.
+func (ts *TermStore) ConeCut(cut map[int]bool, roots ...*Term) []*Term {
 	seen := map[int]bool{}
 	var out []*Term
 	type fr struct {
@@ -1464,7 +1665,7 @@ func (ts *TermStore) Cone(roots ...*Term) []*Term {
 		seen[r.id] = true
 		for len(stack) > 0 {
 			top := &stack[len(stack)-1]
-			if top.i < len(top.t.args) {
+			if top.i < len(top.t.args) && !(cut != nil && cut[top.t.id]) {
 				a := top.t.args[top.i]
 				top.i++
 				if !seen[a.id] {
